@@ -8,7 +8,7 @@ for d in seeded/${1:-C}*/; do
   sid=$(basename $d); prop=${sid%%-*}
   [ -f $d/patch.diff ] || continue
   if [ -n "$(git -C /repo status --porcelain)" ]; then echo "REPO NOT CLEAN"; exit 9; fi
-  if ! git -C /repo apply -3 /verif/$d/patch.diff 2>/dev/null; then echo "$sid: PATCH DOES NOT APPLY to current /repo HEAD"; fail=1; continue; fi
+  if ! git -C /repo apply /verif/$d/patch.diff 2>/dev/null; then echo "$sid: PATCH DOES NOT APPLY to current /repo HEAD"; fail=1; continue; fi
   # the checks named in meta.json's detected_by (first the property's own)
   ids=$(python3 -c "import json,re,sys;m=json.load(open('$d/meta.json'));print(' '.join(dict.fromkeys(re.findall(r'check (C[0-9]+)', m.get('detected_by','')))))")
   [ -z "$ids" ] && ids=$prop
